@@ -138,6 +138,7 @@ type c09Op struct {
 	Update string `json:"update,omitempty"` // asserta assertz retract retractall abolish bad-body static
 	S      string `json:"s,omitempty"`
 	Rule   bool   `json:"rule,omitempty"`
+	Ground bool   `json:"ground,omitempty"` // retractall with a ground head d(k, s)
 }
 
 type c09Act struct {
@@ -146,6 +147,8 @@ type c09Act struct {
 	K    string `json:"k"` // "1".."3", "_" or "K" (the generator's K)
 	S    string `json:"s,omitempty"`
 	Rule bool   `json:"rule,omitempty"`
+
+	Ground bool `json:"ground,omitempty"` // retractall with a ground head d(k, s)
 }
 
 type c09Scenario struct {
@@ -172,6 +175,9 @@ func c09Gen(r *kit.Run) (*c09Scenario, *c09Store) {
 	sc := &c09Scenario{Layer: "cursor", Policy: g.Choose(kit.NumPolicies)}
 	if g.Choose(3) == 0 {
 		sc.Layer = "inquery"
+	} else if g.Choose(8) == 0 {
+		sc.Layer = "disj"
+		return sc, &c09Store{}
 	}
 	sc.Dups = g.Choose(4) == 0
 	st := &c09Store{}
@@ -224,6 +230,10 @@ func c09Gen(r *kit.Run) (*c09Scenario, *c09Store) {
 				op.K = c09K(g, true)
 				op.S = next()
 				op.Rule = g.Choose(5) == 0
+				if op.Update == "retractall" && op.K != "_" && g.Choose(2) == 0 {
+					op.Ground = true
+					op.S = fmt.Sprintf("s%d", 1+g.Choose(stamp))
+				}
 			case 3:
 				op = c09Op{Op: "close", Cur: openList[g.Choose(len(openList))]}
 				open[op.Cur] = false
@@ -254,6 +264,10 @@ func c09Gen(r *kit.Run) (*c09Scenario, *c09Store) {
 		}
 		a.S = next()
 		a.Rule = g.Choose(6) == 0
+		if a.Act == "retractall" && a.K != "_" && a.K != "K" && g.Choose(2) == 0 {
+			a.Ground = true
+			a.S = fmt.Sprintf("s%d", 1+g.Choose(stamp))
+		}
 		sc.Acts = append(sc.Acts, a)
 	}
 	if g.Choose(3) == 0 {
@@ -347,6 +361,10 @@ func (c09) Exec(r *kit.Run) {
 	r.Out.Scenario = sc
 	if sc.Layer == "inquery" {
 		c09ExecInQuery(r, sc, st)
+		return
+	}
+	if sc.Layer == "disj" {
+		c09ExecDisj(r, sc)
 		return
 	}
 	sched := kit.NewSched(r, sc.Policy)
@@ -630,10 +648,14 @@ func c09Update(op c09Op, st *c09Store) (string, func() bool, bool) {
 		if kk == "_" {
 			kk = "_"
 		}
-		return fmt.Sprintf("retractall(d%d(%s, _))", op.Pred, kk), func() bool {
+		sArg := "_"
+		if op.Ground {
+			sArg = op.S
+		}
+		return fmt.Sprintf("retractall(d%d(%s, %s))", op.Pred, kk, sArg), func() bool {
 			var keep []c09Clause
 			for _, cl := range st.preds[op.Pred] {
-				if !c09Match(cl, op.K) {
+				if !c09Match(cl, op.K) || (op.Ground && cl.s != op.S) {
 					keep = append(keep, cl)
 				}
 			}
@@ -688,6 +710,9 @@ func c09ExecInQuery(r *kit.Run, sc *c09Scenario, st *c09Store) {
 			t = fmt.Sprintf("once(retract(d%d(%s, _)))", a.Pred, k)
 		case "retractall":
 			t = fmt.Sprintf("retractall(d%d(%s, _))", a.Pred, k)
+			if a.Ground {
+				t = fmt.Sprintf("retractall(d%d(%s, %s))", a.Pred, k, a.S)
+			}
 		case "abolish":
 			t = fmt.Sprintf("abolish(d%d/2)", a.Pred) // (no catch/3 here: this check must not depend on C04)
 		case "bad":
@@ -763,7 +788,7 @@ func c09ExecInQuery(r *kit.Run, sc *c09Scenario, st *c09Store) {
 			}
 			var keep []c09Clause
 			for _, c := range st.preds[a.Pred] {
-				if !c09Match(c, k) {
+				if !c09Match(c, k) || (a.Ground && c.s != a.S) {
 					keep = append(keep, c)
 				}
 			}
@@ -1008,4 +1033,141 @@ func c09Where(s string) string {
 		out = append(out, strings.Trim(w, "()"))
 	}
 	return strings.Join(out, "-")
+}
+
+// ---- multi-clause asserts ----
+// asserta/assertz of a rule whose body is a top-level disjunction stores several clauses at once; they must go to the
+// front / the end as a block, in the order of the disjuncts. Observed through calls only (what clause/2 shows for such
+// rules is C10's subject).
+func c09ExecDisj(r *kit.Run, sc *c09Scenario) {
+	// inside a bubble so that every search goroutine of this run has finished before the next run installs its scheduler
+	leftover, other := kit.Bubble(r.T, func() {
+		c09ExecDisjBody(r, sc)
+		kit.Settle()
+	})
+	if other != nil {
+		kit.Bug("c09 disj harness panic: %v", other)
+	}
+	if leftover {
+		r.Fail("leak", "search-goroutine-alive", "a search goroutine was left behind")
+	}
+}
+
+func c09ExecDisjBody(r *kit.Run, sc *c09Scenario) {
+	g := r.Tape.Lane("gen")
+	interp := prolog.New(strings.NewReader(""), io.Discard)
+	if err := interp.Exec(":- dynamic(e/1)."); err != nil {
+		kit.Bug("c09 disj: %v", err)
+	}
+	var model []string // answers of e(X) in order
+	type cur struct {
+		sols     *prolog.Solutions
+		snapshot []string
+		started  bool
+		pos      int
+	}
+	var curs []*cur
+	defer func() {
+		for _, c := range curs {
+			c.sols.Close()
+		}
+	}()
+	stamp := 0
+	var texts []string
+	n := 2 + g.Choose(14)
+	multi := false
+	for i := 0; i < n && !r.Failed(); i++ {
+		switch g.Weighted(6, 3, 2, 4) {
+		case 0: // assert
+			front := g.Choose(2) == 0
+			k := 1 + g.Weighted(3, 3, 2)
+			var alts, xs []string
+			for j := 0; j < k; j++ {
+				stamp++
+				xs = append(xs, fmt.Sprintf("s%d", stamp))
+				alts = append(alts, fmt.Sprintf("X = s%d", stamp))
+			}
+			clause := "e(" + xs[0] + ")"
+			if k > 1 {
+				clause = "(e(X) :- (" + strings.Join(alts, " ; ") + "))"
+				multi = true
+			}
+			goal := map[bool]string{true: "asserta", false: "assertz"}[front] + "(" + clause + ")"
+			texts = append(texts, goal)
+			if err := interp.QuerySolution(goal + ".").Err(); err != nil {
+				r.Fail("update-error", "update-raised:assert-disjunction", "%s raised %s", goal, kit.CanonErr(err))
+				return
+			}
+			if front {
+				model = append(append([]string(nil), xs...), model...)
+			} else {
+				model = append(model, xs...)
+			}
+		case 1: // open a call
+			if len(curs) < 3 {
+				sols, err := interp.Query("e(X).")
+				if err != nil {
+					kit.Bug("c09 disj query: %v", err)
+				}
+				curs = append(curs, &cur{sols: sols})
+				texts = append(texts, "open e(X)")
+			}
+			continue
+		case 2: // close one
+			if len(curs) > 0 {
+				k := g.Choose(len(curs))
+				curs[k].sols.Close()
+				curs = append(curs[:k], curs[k+1:]...)
+				r.Fault("close-open-cursor")
+			}
+			continue
+		default: // step one
+			if len(curs) == 0 {
+				continue
+			}
+			c := curs[g.Choose(len(curs))]
+			if !c.started {
+				c.started, c.snapshot = true, append([]string(nil), model...)
+			}
+			got := "<end>"
+			if c.sols.Next() {
+				v := kit.NewVars()
+				c.sols.Scan(v)
+				got = v.Get("X")
+			}
+			want := "<end>"
+			if c.pos < len(c.snapshot) {
+				want = c.snapshot[c.pos]
+				c.pos++
+			}
+			texts = append(texts, "step -> "+got)
+			if got != want {
+				r.Fail("answer-mismatch", "cursor-answer:call:multi-clause-assert", "an open call of e(X) answered %s; by its call-time snapshot %v the next answer is %s (history: %s)", got, c.snapshot, want, strings.Join(texts, ", "))
+				return
+			}
+			if multi {
+				r.Out.NonTrivial = true
+			}
+			continue
+		}
+		// after every update: the answers of e(X) are the model's
+		sols, err := interp.Query("e(X).")
+		if err != nil {
+			kit.Bug("c09 disj: %v", err)
+		}
+		var got []string
+		for sols.Next() {
+			v := kit.NewVars()
+			sols.Scan(v)
+			got = append(got, v.Get("X"))
+		}
+		sols.Close()
+		if !kit.SameList(got, model) {
+			r.Fail("db-mismatch", "db-differs:multi-clause-assert", "after %s a call of e(X) answers %v; front/end insertion of whole clauses gives %v (history: %s)", texts[len(texts)-1], got, model, strings.Join(texts, ", "))
+			return
+		}
+	}
+	sc.Query = strings.Join(texts, ", ")
+	b, _ := json.Marshal(sc)
+	r.Out.ScenarioKey = string(b)
 }
